@@ -21,6 +21,7 @@ def run(ck):
     ck.plans.append(relay.relay_replay_plan)
     relay.check_copy_half(ck, max_turns=2)
     relay.check_copy_half_abort(ck)
+    relay.check_handover(ck)       # early data: what the hand-over forwards is counted too
     ck.plans.append(accesslog.replay_plan)
     accesslog.spec_log_thread(ck, nevents=3 if ck.tier == 'quick' else 4)
     # "with the ... source ... it actually used": the peer address every listener records (shared with C02)
